@@ -32,6 +32,105 @@ fn laws<T: PartialEq + Ord + std::hash::Hash + Clone>(a: &T, b: &T, c: &T) -> Ve
     bad
 }
 
+/// small composite values for the encoder enumerators: lists, dicts and grids, nested in each other
+fn composite_samples() -> Vec<Value> {
+    use libhaystack::val::{Column, Dict, Grid};
+    let mut d1 = Dict::new();
+    d1.insert("a".into(), Value::make_int(1));
+    d1.insert("m".into(), Value::Marker);
+    d1.insert("s".into(), Value::make_str("x,y"));
+    let mut d2 = Dict::new();
+    d2.insert("a".into(), Value::make_int(2));
+    d2.insert("b".into(), Value::Na);
+    let g1 = Grid::make_from_dicts(vec![d1.clone(), d2.clone()]);
+    let g_empty = Grid::make_empty();
+    let g_no_cols = Grid { meta: None, columns: Vec::<Column>::new(), rows: vec![d1.clone()], ver: "3.0".into() };
+    let mut meta = Dict::new();
+    meta.insert("dis".into(), Value::make_str("t"));
+    let g_meta = Grid::make_from_dicts_with_meta(vec![d2.clone()], meta.clone());
+    let mut g_colmeta = Grid::make_from_dicts(vec![d2.clone()]);
+    g_colmeta.columns[0].meta = Some(meta.clone());
+    let mut meta2 = meta.clone();
+    meta2.insert("m".into(), Value::Marker);
+    meta2.insert("n".into(), Value::make_int(3));
+    let mut g_meta2 = Grid::make_from_dicts_with_meta(vec![d2.clone()], meta2.clone());
+    g_meta2.columns[1].meta = Some(meta2.clone());
+    let mut g_zero_rows = Grid::make_from_dicts(vec![d2.clone()]);
+    g_zero_rows.rows.clear();
+    let mut d_null = Dict::new();
+    d_null.insert("a".into(), Value::Null);
+    d_null.insert("b".into(), Value::make_int(1));
+    let g_null = Grid::make_from_dicts(vec![d_null.clone(), d2.clone()]);
+    let mut d_sc = Dict::new();
+    d_sc.insert("ref".into(), Value::make_ref_with_dis("a-b", "A \"b\""));
+    d_sc.insert("uri".into(), Value::make_uri("http://x/a b"));
+    d_sc.insert("sym".into(), Value::make_symbol("site"));
+    d_sc.insert("xs".into(), Value::make_xstr_from("Bin", "a,b\nc"));
+    d_sc.insert("co".into(), Value::make_coord_from(1.5, -2.25));
+    d_sc.insert("nl".into(), Value::make_str("line1\nline2,<<>>"));
+    d_sc.insert("rm".into(), Value::Remove);
+    d_sc.insert("nul".into(), Value::Null);
+    d_sc.insert("neg".into(), Value::make_number(-1.5e-7));
+    d_sc.insert("inf".into(), Value::make_number(f64::NEG_INFINITY));
+    d_sc.insert("dt".into(), Value::make_datetime(libhaystack::val::DateTime::parse_from_rfc3339_with_timezone("2021-06-19T19:48:23-04:00", "New_York").unwrap()));
+    d_sc.insert("dtz".into(), Value::make_datetime_from_iso("2021-06-19T19:48:23Z").unwrap());
+    d_sc.insert("date".into(), Value::make_date(libhaystack::val::Date::from_ymd(2021, 6, 19).unwrap()));
+    d_sc.insert("time".into(), Value::make_time(libhaystack::val::Time::from_hms_milli(23, 59, 59, 999).unwrap()));
+    d_sc.insert("unit".into(), Value::make_number_unit(3.0, libhaystack::units::get_unit_or_default("kW")));
+    let mut meta_c = Dict::new();
+    meta_c.insert("l".into(), Value::make_list(vec![Value::make_int(1), Value::make_dict(d2.clone())]));
+    meta_c.insert("d".into(), Value::make_dict(d_sc.clone()));
+    meta_c.insert("g".into(), Value::make_grid(g1.clone()));
+    let g_meta_c = Grid::make_from_dicts_with_meta(vec![d_sc.clone(), d2.clone()], meta_c);
+    let mut d_nested = Dict::new();
+    d_nested.insert("g".into(), Value::make_grid(g1.clone()));
+    d_nested.insert("l".into(), Value::make_list(vec![Value::make_grid(g1.clone()), Value::make_int(7)]));
+    let g_nested = Grid::make_from_dicts(vec![d_nested.clone()]);
+    vec![
+        Value::make_list(vec![]),
+        Value::make_list(vec![Value::make_int(1)]),
+        Value::make_list(vec![Value::make_int(1), Value::make_str("a"), Value::Marker]),
+        Value::make_list(vec![Value::make_list(vec![Value::make_int(1)]), Value::make_list(vec![])]),
+        Value::make_list(vec![Value::make_int(42), Value::make_grid(g1.clone()), Value::Marker]),
+        Value::make_dict(Dict::new()),
+        Value::make_dict(d1.clone()),
+        Value::make_dict(d_nested.clone()),
+        Value::make_grid(g1.clone()),
+        Value::make_grid(g_empty),
+        Value::make_grid(g_meta),
+        Value::make_grid(g_colmeta),
+        Value::make_grid(g_meta2.clone()),
+        Value::make_list(vec![Value::make_grid(g_meta2)]),
+        Value::make_grid(g_zero_rows),
+        Value::make_grid(g_null),
+        Value::make_dict(d_null),
+        Value::make_list(vec![Value::Null, Value::Remove, Value::Na]),
+        Value::make_dict(d_sc.clone()),
+        Value::make_list(vec![Value::make_dict(d_sc.clone())]),
+        Value::make_grid(Grid::make_from_dicts(vec![d_sc])),
+        Value::make_grid(g_meta_c),
+        Value::make_grid(g_nested),
+        Value::make_grid(g_no_cols),
+    ]
+}
+
+/// C02: "an absent grid meta and an empty grid meta are the same thing" -- normalise before comparing
+fn norm(v: &Value) -> Value {
+    use libhaystack::val::{Dict, Grid};
+    fn nd(d: &Dict) -> Dict { let mut o = Dict::new(); for (k, v) in d.iter() { o.insert(k.clone(), norm(v)); } o }
+    match v {
+        Value::List(l) => Value::make_list(l.iter().map(norm).collect()),
+        Value::Dict(d) => Value::make_dict(nd(d)),
+        Value::Grid(g) => Value::make_grid(Grid {
+            meta: g.meta.as_ref().filter(|m| !m.is_empty()).map(nd),
+            columns: g.columns.iter().map(|c| libhaystack::val::Column { name: c.name.clone(), meta: c.meta.as_ref().filter(|m| !m.is_empty()).map(nd) }).collect(),
+            rows: g.rows.iter().map(nd).collect(),
+            ver: g.ver.clone(),
+        }),
+        other => other.clone(),
+    }
+}
+
 fn main() {
     let args: Vec<String> = std::env::args().collect();
     let fam = args.get(1).map(|s| s.as_str()).unwrap_or("");
@@ -89,7 +188,22 @@ fn main() {
                     std::process::exit(3);
                 }
             }
-            println!("RESULT enum:zinc-escape all grammar escapes decode as the grammar says");
+            {
+                use libhaystack::encoding::zinc::encode::ToZinc;
+                let all = composite_samples();
+                let mut bad = false;
+                // the last sample (rows without columns) has no Zinc spelling that keeps its rows; it is for the panic enumerator only
+                for v in &all[..all.len() - 1] {
+                    let z = v.to_zinc_string();
+                    let back = z.as_ref().ok().map(|z| from_str(z));
+                    if !matches!(&back, Some(Ok(b)) if b == v) {
+                        println!("RESULT enum:zinc-escape composite value={v:?} zinc={z:?} decoded={back:?}");
+                        bad = true;
+                    }
+                }
+                if bad { std::process::exit(3); }
+            }
+            println!("RESULT enum:zinc-escape all grammar escapes decode as the grammar says; composite samples come back through the writer and reader");
         }
         // ---- C01: encode to Zinc, decode, compare; args: kind + payload strings (hex utf-8); exit 3 = not identical
         "zinc-roundtrip" => {
@@ -115,6 +229,21 @@ fn main() {
             if !same { std::process::exit(3); }
         }
         // ---- C10 enumerator: scalar values with empty / non-ASCII / odd strings through every encoder; a panic exits 101
+        // ---- C02 enumerator: composite samples through the real Hayson writer and reader; exit 3 when one does not come back
+        "enum:hayson-roundtrip" => {
+            let all = composite_samples();
+            let mut bad = false;
+            for v in &all[..all.len() - 1] {
+                let j = serde_json::to_string(v);
+                let back = j.as_ref().ok().map(|j| serde_json::from_str::<Value>(j));
+                if !matches!(&back, Some(Ok(b)) if norm(b) == norm(v)) {
+                    println!("RESULT enum:hayson-roundtrip value={v:?} json={j:?} decoded={back:?}");
+                    bad = true;
+                }
+            }
+            if bad { std::process::exit(3); }
+            println!("RESULT enum:hayson-roundtrip composite samples come back through the Hayson writer and reader");
+        }
         "enum:zinc-encode-panics" => {
             use libhaystack::encoding::zinc::encode::ToZinc;
             let strs = ["", "a", "é", "éa", "a\"b", "\\", "$", "\u{0}", "😀", " ", "A", "ab"];
@@ -132,7 +261,10 @@ fn main() {
                 let v = Value::make_number(x); let _ = v.to_zinc_string(); let _ = serde_json::to_string(&v); n += 1;
                 let v = Value::make_coord_from(x, -x); let _ = v.to_zinc_string(); let _ = serde_json::to_string(&v); n += 1;
             }
-            println!("RESULT enum:zinc-encode-panics {n} scalar values encoded to Zinc, Hayson and display text without a panic");
+            for v in composite_samples() {
+                let _ = v.to_zinc_string(); let _ = serde_json::to_string(&v); let _ = format!("{v}"); n += 1;
+            }
+            println!("RESULT enum:zinc-encode-panics {n} scalar and composite values encoded to Zinc, Hayson and display text without a panic");
         }
         // ---- C17 enumerator: list handles against Vec semantics, all ops x indices 0..=5 on lists of length 0..=4; exit 3 on mismatch
         "enum:capi-list" => unsafe {
